@@ -26,9 +26,16 @@ func TestMain(m *testing.M) {
 			"of functions and lambdas, assignment from nested functions / loops / closures, func NAME(){} redefinition, same-value re-assignment, mutation through an alias), each on a session with registers and on one " +
 			"without. Model: NAME keeps its value until an explicit del(NAME) (which is generated too, followed by a re-binding). Oracle: after every attempt NAME at top level has the model's value (type and " +
 			"structure); whenever an attempt that did not fail printed NAME, it printed the model's value; error/no-error and output are the same with and without registers. Non-trivial: the sequence contains an " +
-			"index/element path on a container above the threshold or a loop-variable / parameter path with an integer; distinct by text.",
+			"index/element path on a container above the threshold or a loop-variable / parameter path with an integer; distinct by text. " +
+			"Names (TestNames generated, TestNameShapes enumerated): the same attempts on constants whose name is drawn from every shape of an all-upper-case identifier (a capital, then capitals, digits and " +
+			"underscores in any position: single letters, C1, A1B2, A_B, A__B, MAX_, A_B_, A__), and, on the other side of that definition, names spoiled in one place (leading underscore, one lower-case " +
+			"letter), which are plain variables: re-binding them takes effect. Local (TestLocal): the constant (name of any shape, value of each type) is local to a function - bound in its body, in a block, " +
+			"from or as a parameter, or in a function nested in it - that returns a map of closures, one reader and 1..4 attackers (the attempts above as closure bodies, and setters that get the new value " +
+			"as an argument: =, :=, a parameter / loop variable with the constant's name, nested writers, index writes, with and without reading the constant first); the attackers are called after the " +
+			"function returned (directly, through a stored reference, from another function, from a lambda passed to another function, from a loop) and after each call the reader must return the model's value.",
 		Assumptions: []string{
 			"re-assigning the value the constant already has is allowed (TestEvalIntegerExpression: ONE=1;ONE=1) and must leave it unchanged",
+			"all upper case is what object.Constant accepts on the correct code: a capital letter followed by capitals, digits and underscores, the last position included; any other identifier is a plain variable (checked only as: binding it again takes effect); PI and E, bound before the first input, are not generated",
 			"classes of the listed known findings are excluded by construction: K-C19-1 (upper-case integer parameter / counted-loop variable with registers) and K-C06-1 (mutation of a large container through an alias)",
 		},
 	})
@@ -45,14 +52,39 @@ type Step struct {
 type Case struct {
 	Init  string `json:"init"` // value expression
 	Steps []Step `json:"steps"`
+	// The three below are empty in the cases of TestAttempts (and in the older replay / regress files).
+	Name string `json:"name,omitempty"` // the attacked name; NAME when empty
+	Bind string `json:"bind,omitempty"` // the input that binds it; "<name> = <init>" when empty
+	Read string `json:"read,omitempty"` // the expression that evaluates to what it is bound to; the name itself when empty
+}
+
+func (c Case) name() string {
+	if c.Name != "" {
+		return c.Name
+	}
+	return NAME
+}
+
+func (c Case) bind() string {
+	if c.Bind != "" {
+		return c.Bind
+	}
+	return c.name() + " = " + c.Init
+}
+
+func (c Case) read() string {
+	if c.Read != "" {
+		return c.Read
+	}
+	return c.name()
 }
 
 // a closure factory: two values of it have the same text and differ in what they captured
 const prelude = "mkc = c => x => x + c"
 
 // probe: what the constant computes when it is a function (its text alone does not tell closures apart)
-func probe(s *sess.S) string {
-	o, err := s.Obj("catch(" + NAME + "(1))")
+func probe(s *sess.S, read string) string {
+	o, err := s.Obj("catch(" + read + "(1))")
 	if err != nil {
 		return "error: " + err.Error()
 	}
@@ -76,8 +108,8 @@ func evalValue(expr string) (val.V, string, bool) {
 	return v, "", true
 }
 
-func current(s *sess.S) (val.V, string, error) {
-	o, err := s.Obj(NAME)
+func current(s *sess.S, read string) (val.V, string, error) {
+	o, err := s.Obj(read)
 	if err != nil {
 		return val.V{}, "", err
 	}
@@ -103,6 +135,7 @@ func printedForm(v val.V, insp string) string {
 
 func check(c Case) error {
 	pbt.InFlight("inflight", c)
+	cn, read := c.name(), c.read()
 	var outs [2][]sess.Res
 	for mode, noreg := range []bool{false, true} {
 		s := sess.New(sess.Config{NoReg: noreg})
@@ -112,48 +145,48 @@ func check(c Case) error {
 			return fmt.Errorf("harness: cannot evaluate initial value %q", c.Init)
 		}
 		s.Run(prelude)
-		if r := s.Run(NAME + " = " + c.Init); r.Failed() {
-			return fmt.Errorf("harness: cannot bind %s = %s: %v", NAME, c.Init, r.Errs)
+		if r := s.Run(c.bind()); r.Failed() {
+			return fmt.Errorf("harness: cannot bind %s: %v", c.bind(), r.Errs)
 		}
 		probe0 := ""
 		if minsp != "" {
-			probe0 = probe(s)
+			probe0 = probe(s, read)
 		}
-		hist := []string{NAME + " = " + c.Init}
+		hist := []string{c.bind()}
 		for _, st := range c.Steps {
 			hist = append(hist, st.Src)
 			r := s.Run(st.Src)
 			outs[mode] = append(outs[mode], r)
 			if st.Rebind != "" {
 				if r.Failed() {
-					return fmt.Errorf("[%s] del + re-binding failed: %q: %v\nhistory:\n%s", name, st.Src, r.Errs, strings.Join(hist, "\n"))
+					return fmt.Errorf("[%s] (del +) re-binding failed: %q: %v\nhistory:\n%s", name, st.Src, r.Errs, strings.Join(hist, "\n"))
 				}
 				model, minsp, _ = evalValue(st.Rebind)
 				probe0 = ""
 				if minsp != "" {
-					probe0 = probe(s)
+					probe0 = probe(s, read)
 				}
 			}
 			if st.Prints && !r.Failed() && r.Out != "" {
 				want := printedForm(model, minsp)
 				for _, line := range strings.Split(strings.TrimSuffix(r.Out, "\n"), "\n") {
 					if line != want {
-						return fmt.Errorf("[%s] %q did not fail and printed %s as %q, but the constant is %q\nhistory:\n%s", name, st.Src, NAME, line, want, strings.Join(hist, "\n"))
+						return fmt.Errorf("[%s] %q did not fail and printed %s as %q, but the constant is %q\nhistory:\n%s", name, st.Src, cn, line, want, strings.Join(hist, "\n"))
 					}
 				}
 			}
 			if probe0 != "" {
-				if p := probe(s); p != probe0 {
-					return fmt.Errorf("[%s] after %q: the function constant %s now computes %s for the argument 1, it computed %s\nhistory:\n%s", name, st.Src, NAME, p, probe0, strings.Join(hist, "\n"))
+				if p := probe(s, read); p != probe0 {
+					return fmt.Errorf("[%s] after %q: the function constant %s now computes %s for the argument 1, it computed %s\nhistory:\n%s", name, st.Src, cn, p, probe0, strings.Join(hist, "\n"))
 				}
 			}
-			got, ginsp, err := current(s)
+			got, ginsp, err := current(s, read)
 			if err != nil {
-				return fmt.Errorf("[%s] after %q: %s cannot be read any more: %v\nhistory:\n%s", name, st.Src, NAME, err, strings.Join(hist, "\n"))
+				return fmt.Errorf("[%s] after %q: %s cannot be read any more: %v\nhistory:\n%s", name, st.Src, cn, err, strings.Join(hist, "\n"))
 			}
 			if ginsp != minsp || (minsp == "" && !val.Identical(got, model)) {
 				return fmt.Errorf("[%s] after %q: constant %s is now %s, it was bound to %s and never deleted\nhistory:\n%s",
-					name, st.Src, NAME, printedForm(got, ginsp), printedForm(model, minsp), strings.Join(hist, "\n"))
+					name, st.Src, cn, printedForm(got, ginsp), printedForm(model, minsp), strings.Join(hist, "\n"))
 			}
 		}
 	}
@@ -221,9 +254,8 @@ func nearEqual(init string) string {
 	return init[:loc[5]] + ".0" + init[loc[5]:]
 }
 
-func attempts(t *rapid.T, init string) (Step, bool) {
+func attempts(t *rapid.T, init, N string) (Step, bool) {
 	v := rapid.SampledFrom(otherVals).Draw(t, "v")
-	N := NAME
 	nontrivial := false
 	forms := []func() Step{
 		func() Step { return Step{Src: N + " = " + v} },
@@ -334,7 +366,7 @@ func TestAttempts(t *testing.T) {
 		nt := false
 		n := rapid.IntRange(3, 14).Draw(rt, "n")
 		for i := 0; i < n; i++ {
-			st, x := attempts(rt, cur)
+			st, x := attempts(rt, cur, NAME)
 			nt = nt || x
 			c.Steps = append(c.Steps, st)
 			if st.Rebind != "" {
